@@ -216,7 +216,13 @@ func (ch *c08Child) writeHt(f int, h c08Ht) {
 	if h.Bad {
 		sb.WriteString("this line has no separator\n")
 	}
+	before, errB := os.Stat(p)
 	os.WriteFile(p, []byte(sb.String()), 0o644)
+	// a rewritten file is a new version of the file: it never keeps both the modification time and the
+	// size of the old one (two writes within one tick of a coarse file-system clock would)
+	if after, err := os.Stat(p); errB == nil && err == nil && after.Size() == before.Size() && after.ModTime().Equal(before.ModTime()) {
+		os.Chtimes(p, time.Now(), before.ModTime().Add(time.Millisecond))
+	}
 }
 
 var c08Events = []string{"startup", "shutdown", "certrenew"}
@@ -275,7 +281,19 @@ func (ch *c08Child) render(c *c08Cfg) string {
 		}
 		// rotate the lines by the id so that file order differs from execution order
 		k := c.ID % len(lines)
+		var logs []string
+		for _, l := range lines {
+			if strings.HasPrefix(l, "log ") {
+				logs = append(logs, l)
+			}
+		}
 		lines = append(lines[k:], lines[:k]...)
+		// ... but the lines of ONE directive keep their order (their startup callbacks run in file order)
+		for i, l := range lines {
+			if strings.HasPrefix(l, "log ") {
+				lines[i], logs = logs[0], logs[1:]
+			}
+		}
 		text.WriteString(key + " {\n\t" + strings.Join(lines, "\n\t") + "\n}\n")
 	}
 	out := text.String()
